@@ -458,7 +458,7 @@ def section_kd(ctx, binp, runner, st):
     for (cs, path), got in zip(derive_meta, res):
         if got.strip() != cs["got"]:
             ctx.violation({"section": "kd", "seed": ctx.seed, "case": cs, "model_path": path, "derived_along_model_path": got.strip()},
-                          "getter %s%s does not derive along the path of the model (%s)" % (cs["kind"], cs["a"], path))
+                          "%s%s does not derive along the path of the model (%s)" % (cs.get("via", "getter " + cs["kind"]), cs["a"], path))
     dist["index>=2^31 rejected"] = errs
     st.evals += len(cases)
     st.traces += len(lines)
